@@ -9,6 +9,8 @@ The skeleton of a method is the list, in evaluation order, of
 * `call o m` — a call of the `PointJacobi` method `m` on `o` that (transitively) touches those fields
   (calls of methods that never do — the arithmetic kernels, `order()`, `curve()` … — are omitted, as are all
   accesses to objects created inside the method);
+* `callR o m` — an operator applied to the result of a call that may return `o` itself (`P * 1` is `P`): the method
+  `m` then touches `o` again;
 * `ifS … ifE … ifX` — `if`: then-branch, else-branch (also used for the short-circuited operands of `and`/`or`);
   an `if` without any token inside is omitted;
 * `loopS … loopX` — a loop whose body contains tokens (a loop without tokens is omitted);
@@ -30,6 +32,7 @@ inductive Tok
   | R (o : Obj) (f : Fld)
   | W (o : Obj) (f : Fld)
   | call (o : Obj) (m : String)
+  | callR (o : Obj) (m : String)   -- call of `m` on the RESULT of preceding calls, which may be the object `o` itself
   | ifS
   | ifE
   | ifX
